@@ -58,12 +58,16 @@ def _fingerprint():
                 own = getattr(val, "__module__", None)
                 if isinstance(val, (dict, list, set, bytearray)):
                     items.append((f"{mod.__name__}.{name}", canon(val)))
+                elif isinstance(val, (int, float)) and not isinstance(val, bool):
+                    items.append((f"{mod.__name__}.{name}", repr(val)))      # module-level counters / limits
                 elif isinstance(val, type) and own == mod.__name__:
                     for an, av in sorted(vars(val).items()):
                         if an.startswith("__"):
                             continue
                         if isinstance(av, (dict, list, set, bytearray)):
                             items.append((f"{mod.__name__}.{name}.{an}", canon(av)))
+                        if isinstance(av, (int, float)) and not isinstance(av, bool):
+                            items.append((f"{mod.__name__}.{name}.{an}", repr(av)))
                         if isinstance(av, types.FunctionType) and av.__defaults__:
                             items.append((f"{mod.__name__}.{name}.{an}.__defaults__", canon(av.__defaults__)))
                 elif isinstance(val, types.FunctionType) and own == mod.__name__:
@@ -172,7 +176,11 @@ def vocab_program(rng, kind, drv):
                                    "*=0x008000\n.db 1,2,3,4,5,6,7,8\n*=0x028000\nbra far_zq + 300\nfar_zq:\n", "*=0x008000\n.db 9,9,9,9,9,9,9,9,9,9\n*=0x028000\n.db 256 * 256 * 256 * 256\nlda.l -1\n"]),
                 "rom": "low_rom", "api": "file", "files": {"voc_inc.s": ".db 0x99\n"}}
     if kind == "failing":
-        return {"src": rng.choice(["*=0x008000\nlda.w nothing_defined\n", "*=0x008000\n.db 1\nlda.q 2\n", "*=0x008000\n.macro half(v) {\n.db v\n", "*=0x008000\n.db 1\n*=0x700000\n.db 2\n", "*=0x008000\nload(5)\n", ".include 'gone.s'\n", "*=0x008000\nSHARED := 3\n.db SHARED\nbra shared_label + 300\n"]), "rom": "low_rom"}
+        return {"src": rng.choice(["*=0x008000\nlda.w nothing_defined\n", "*=0x008000\n.db 1\nlda.q 2\n", "*=0x008000\n.macro half(v) {\n.db v\n", "*=0x008000\n.db 1\n*=0x700000\n.db 2\n", "*=0x008000\nload(5)\n", ".include 'gone.s'\n", "*=0x008000\nSHARED := 3\n.db SHARED\nbra shared_label + 300\n",
+                                   # failures in the middle of nested expansions
+                                   "*=0x008000\n.macro load(v) {\n.db v\nload(v + 1)\n}\nload(0)\n", "*=0x008000\n.macro ping(v) {\npong(v)\n}\n.macro pong(v) {\nping(v)\n}\nping(1)\n",
+                                   "*=0x008000\n.macro load(v) {\n.db v\nno_such_macro(v)\n}\n.macro twice(v) {\nload(v)\nload(v)\n}\ntwice(1)\n", "*=0x008000\n.macro load(v) {\n{{v}}\n}\nload(3)\n",
+                                   "*=0x008000\n.for i := 0, 3 {\n{\n.scope deep {\nlda.w nothing_defined\n}\n}\n}\n", "*=0x008000\n.if 1 {\n.for i := 0, 2 {\nload(i)\n}\n}\n"]), "rom": "low_rom"}
     if kind == "uses-undefined":
         return {"src": rng.choice(["*=0x008000\nload(0x34)\nrts\n", "*=0x008000\n.db SHARED\n", "*=0x008000\n.dw shared_label\n", "*=0x008000\n.text 'ABthe'\n", "*=0x008000\ntwice(3)\n"]), "rom": "low_rom"}
     pr = gen_program.generate(rng, drv)
